@@ -65,7 +65,7 @@ def gen_case(rng, tier, avoid):
         ops = gen.noise_file(rng) + ops          # process history: another file (other record length) written first
     # one transient I/O error (a single failing open / partial write / close at a seeded event of the write): should the writer
     # absorb it and return normally, what it produced is still a file produced by a successful write
-    transient = [rng.random(), rng.random(), rng.choice(['write_fail', 'write_fail', 'close_fail', 'open_fail'])] \
+    transient = [rng.random(), rng.random(), rng.choice(['write_fail', 'write_fail', 'close_fail', 'open_fail', 'short_write'])] \
         if rng.random() < 0.35 else None
     return {'scenario': {'env': {'tz': 'UTC'}, 'history': ops},
             'params': {'ocs': ocs, 'prior': prior, 'relabel': relabel, 'transient': transient}}
@@ -127,7 +127,7 @@ def check_case(case, ex):
                                                             min(nseg_multi, 9)))
         tr = case['params'].get('transient')
         if tr and k == 0:
-            want = {'write_fail': 'write', 'close_fail': 'close', 'open_fail': 'open'}[tr[2]]
+            want = {'write_fail': 'write', 'close_fail': 'close', 'open_fail': 'open', 'short_write': 'write'}[tr[2]]
             evs = [e for e in (st.get('io') or []) if e['k'] == want and (want != 'write' or e['n'] > 1)]
             if evs:
                 e = evs[int(tr[0] * len(evs)) % len(evs)]
